@@ -4,6 +4,7 @@ CONSTANTS
   LeaveFix = TRUE
   MaxResets = 2
   Faults = TRUE
+  MaxProcs = 2
 VIEW view
 INVARIANT TypeOK
 INVARIANT StartedOnlyWhenAll
